@@ -220,10 +220,9 @@ def opaque_call(eng, st, tag, args, kwargs, fv=None, raises=None, result=None, h
         ok = s1.clone()
         ok.path.append(f"{tag}:ok")
         outs.append((ok, result() if result else Opaque(f"ret:{tag}")))
-        for c in raises if raises is not None else eng.user_raises:
-            s2 = s1.clone()
-            s2.path.append(f"{tag}:raises {c}")
-            outs.append((s2, Raised(Exc(c, origin=tag))))
+        s2 = s1.clone()
+        s2.path.append(f"{tag}:raises")
+        outs.append((s2, Raised(Exc(frozenset(raises if raises is not None else eng.user_raises), origin=tag))))
     return outs
 
 
@@ -289,6 +288,9 @@ def str_method(eng, st, recv, name, args, kwargs):
         f = z3.Function(f"py_str_{name}", STR, STR)
         return [(st, Z("str", f(t)))]
     if name in ("isidentifier", "isalnum", "isdigit") and not args:
+        tv = z3.simplify(t)
+        if z3.is_string_value(tv):
+            return [(st, mkbool(getattr(tv.as_string(), name)()))]
         f = z3.Function(f"py_str_{name}", STR, BOOL)
         return [(st, Z("bool", f(t)))]
     if name == "count" and isinstance(a0, Z) and a0.kind == "str":
